@@ -1239,7 +1239,7 @@ def run(ctx: Ctx):
     # ---- documents ----
     specs_pool = formatter_specs(names)
     requests = []
-    plan = [("html", ctx.n(400, 2400)), ("edited", ctx.n(500, 3000)), ("xml", ctx.n(150, 900)), ("malformed", ctx.n(150, 900))]
+    plan = [("html", ctx.n(300, 2000)), ("edited", ctx.n(380, 2400)), ("xml", ctx.n(110, 700)), ("malformed", ctx.n(110, 700))]
     max_recv = ctx.n(14, 30)
     n_specs = ctx.n(4, 7)
     for i, recipe in enumerate(FIXED):
